@@ -111,7 +111,10 @@ def main():
             n_match += sum(len(x) for x in rec["res"])
             mism = replay_pattern.replay(rec)
             if mism:
-                rep.violation({"layer": "pattern-replay", "what": mism[0].split("(")[0]},
+                ks = getattr(replay_pattern.replay, "last_patterns", [])
+                p0 = replay_pattern.PATTERNS[ks[0]][0] if ks else {}
+                rep.violation({"layer": "pattern-replay", "what": mism[0].split("(")[0], "pat_kind": p0.get("k", ""),
+                               "pat_literal": bool(p0.get("v"))},
                               {"tree": rec["tree"], "mismatches": mism[:5]})
             if n_pt % 150 == 1:
                 rep.sample({"tree": rec["tree"], "pattern": replay_pattern.render(replay_pattern.PATTERNS[14]),
@@ -124,7 +127,7 @@ def main():
     rep.cov["rule"] = ("navigation: all labelled trees <= 4 (thorough 5, laws 6) nodes x every node and block cursor x "
                        "parent/next/prev(1,2)/before/after/anchor/body/orelse/as_block/index/slice/expand/block before,after,"
                        "parent; patterns: all statement forests <= 3 (thorough 4) nodes over {a=1, b=2, a+=1, pass, alloc t, "
-                       "for i/j, if/else} x 23 patterns (names, `_`, literals, bodies, `_` holes, sequences with holes), "
+                       "for i/j, if/else} x 26 patterns (names, `_`, literals, bodies, `_` holes, sequences with holes), "
                        "find_all order, find, #n and the error past the last match")
     rep.assumptions += ["expression patterns are exercised only through literals on the right-hand side"]
     return rep.finish()
